@@ -167,7 +167,7 @@ class C11(PropCheck):
               'Local Close Scope Q_scope.\n')
     case_type = 'BoCase.case'
     preds = (('BoCase.agree', 'agree'), ('BoCase.ok', 'ok'))
-    chunk = 12
+    chunk = 20
     case_timeout = 150
     build_targets = ('Sched/BoCase.vo',)
     rule = ('(a) acquire(n, t) of LCBSC / MaxVar / RandMaxVar(metropolis) / ExpIntVar / UniformAcquisition on fitted GPyRegression '
@@ -214,10 +214,10 @@ class C11(PropCheck):
     def generate(self):
         r = self.rng
         quick = self.tier == 'quick'
-        n_acq = 34 if quick else 400
-        n_min = 10 if quick else 120
-        n_bo = 26 if quick else 320
-        n_grad = 8 if quick else 80
+        n_acq = 50 if quick else 1000
+        n_min = 14 if quick else 250
+        n_bo = 60 if quick else 1200
+        n_grad = 10 if quick else 200
         n_bad = 6 if quick else 30
         classes = ['lcbsc', 'lcbsc', 'lcbsc', 'maxvar', 'randmaxvar_metropolis', 'randmaxvar_metropolis', 'expintvar', 'uniform',
                    'lcbsc_prior', 'maxvar']   # RandMaxVar(sampler='nuts') dies under numpy 2 (float(1-element array) in mcmc._build_tree_nuts)
@@ -511,16 +511,19 @@ class C11(PropCheck):
         k = case['kind']
         if k in ('acq', 'minimize'):
             if out['shape'] != [case.get('n', 1), case['dim']]:
-                f.append(('acquire_shape', 'acquire(%d) returned an array of shape %s, expected %s'
-                          % (case.get('n', 1), out['shape'], [case.get('n', 1), case['dim']])))
+                f.append(('acquire_shape', 'acquire(n) did not return an array of shape (n, input_dim) (see impl_output.shape)'))
             for row in out['out']:
                 for (lo, hi), v in zip(case['bounds'], row):
                     if not (lo <= v <= hi):
-                        f.append(('point_in_bounds', 'acquired coordinate %r outside [%r, %r] (%s)' % (v, lo, hi, case.get('cls', case.get('method')))))
+                        f.append(('point_in_bounds', 'a point returned by %s lies outside the bounds (see impl_output.out)'
+                                  % case.get('cls', 'minimize')))
                         break
+                else:
+                    continue
+                break
         elif k == 'bo':
             if out['leftover']:
-                f.append(('no_task_left', 'tasks left in the client: %r' % out['leftover']))
+                f.append(('no_task_left', 'tasks left in the client after the inference returned'))
             if out['problems']:
                 f.append(('client_protocol', '; '.join(out['problems'][:2])))
             if out['same_as_sequential'] is False:
@@ -528,21 +531,25 @@ class C11(PropCheck):
             for bi, rows in out['sim']:
                 for row in rows:
                     if not all(lo <= v <= hi for (lo, hi), v in zip(case['bounds'], row)):
-                        f.append(('simulated_in_bounds', 'batch %d simulated at %r, outside the bounds %r' % (bi, row, case['bounds'])))
+                        f.append(('simulated_in_bounds', 'a batch was simulated at a parameter row outside the bounds (see impl_output.sim)'))
+                        break
+                else:
+                    continue
+                break
             b = case['b']
             exp_init = case['init'] if case['form'] in ('precomputed', 'zero') else int(math.ceil(case['init'] / b) * b)
             if out['n_init'] != exp_init:
-                f.append(('initial_evidence_resolution', 'n_initial_evidence %d, expected %d' % (out['n_init'], exp_init)))
+                f.append(('initial_evidence_resolution', 'n_initial_evidence is not the requested count rounded up to whole batches'))
             if out['gp_n'] != len(out['X']):
-                f.append(('n_evidence_property', 'target_model.n_evidence %d but X has %d rows' % (out['gp_n'], len(out['X']))))
+                f.append(('n_evidence_property', 'target_model.n_evidence differs from the number of rows of X'))
         elif k == 'grad':
             def close(a, b):
                 return abs(a - b) <= 2e-4 * max(abs(a), abs(b)) + 1e-6
             if not all(close(a, b) for a, b in zip(out['grad'], out['fd_lcb'])):
-                f.append(('lcbsc_gradient_fd', 'LCBSC.evaluate_gradient %r vs finite differences %r' % (out['grad'], out['fd_lcb'])))
+                f.append(('lcbsc_gradient_fd', 'LCBSC.evaluate_gradient differs from central finite differences of LCBSC.evaluate'))
             scale = max(1e-300, abs(out['mv_val']))
             if not all(abs(a - b) <= 2e-3 * max(abs(a), abs(b)) + 1e-6 * scale + 1e-12 for a, b in zip(out['mv_grad'], out['fd_mv'])):
-                f.append(('maxvar_gradient_fd', 'MaxVar.evaluate_gradient %r vs finite differences %r' % (out['mv_grad'], out['fd_mv'])))
+                f.append(('maxvar_gradient_fd', 'MaxVar.evaluate_gradient differs from central finite differences of MaxVar.evaluate'))
         elif k == 'bad':
             if not out['refused']:
                 f.append(('malformed_refused', 'malformed configuration %s was accepted' % case['what']))
